@@ -35,8 +35,10 @@ func main() {
 	case "child":
 		child(os.Args[2:])
 	case "replay":
+		guardResources("replay")
 		os.Exit(replay(os.Args[2:]))
 	case "oneshot":
+		guardResources("oneshot")
 		props.Oneshot(os.Args[2:])
 	case "list":
 		for _, id := range props.IDs() {
@@ -47,6 +49,22 @@ func main() {
 		fmt.Fprintln(os.Stderr, "unknown subcommand", os.Args[1])
 		os.Exit(2)
 	}
+}
+
+// guardResources: the sandbox has no memory limit; a replayed runaway case must end this process, not the machine.
+func guardResources(what string) {
+	debug.SetMaxStack(96 << 20)
+	go func() {
+		var ms runtime.MemStats
+		for {
+			time.Sleep(300 * time.Millisecond)
+			runtime.ReadMemStats(&ms)
+			if ms.HeapAlloc+ms.StackInuse > 3<<30 {
+				fmt.Printf("%s: memory watchdog: heap grew beyond 3 GiB (runaway case reproduced)\n", what)
+				os.Exit(4)
+			}
+		}
+	}()
 }
 
 func verifDir() string {
@@ -128,6 +146,9 @@ func child(args []string) {
 			runtime.ReadMemStats(&ms)
 			if ms.HeapAlloc+ms.StackInuse > 3<<30 {
 				emit(childLine{T: "oom", I: rec.CurIdx})
+				// where the runaway case is: the stacks (truncated per goroutine by the runtime) go to stderr for the parent
+				buf := make([]byte, 4<<20)
+				os.Stderr.Write(buf[:runtime.Stack(buf, true)])
 				os.Exit(4)
 			}
 		}
@@ -195,6 +216,7 @@ type crashInfo struct {
 	idx    int
 	stderr string
 	exit   string
+	oom    bool
 }
 
 func readChildOut(path string) (summary *core.Recorder, lastBegin int, hang int, oom int) {
@@ -316,7 +338,7 @@ func runShard(bin, id, tier string, seed uint64, shard, n int, mode, tmpdir stri
 			continue
 		}
 		if oom >= 0 {
-			res.crashes = append(res.crashes, crashInfo{idx: oom, stderr: "memory watchdog: heap grew beyond 3 GiB while running this case", exit: "killed by the harness memory watchdog"})
+			res.crashes = append(res.crashes, crashInfo{idx: oom, stderr: "memory watchdog: heap grew beyond 3 GiB while running this case\n" + head(errf, 12000), exit: "killed by the harness memory watchdog", oom: true})
 			skips = append(skips, fmt.Sprint(oom))
 			continue
 		}
@@ -458,10 +480,13 @@ func parent(args []string) int {
 		for _, c := range r.crashes {
 			site := core.PanicSite(c.stderr)
 			kind := "fatal"
+			if c.oom {
+				kind, site = "runaway-memory", core.DominantSite(c.stderr)
+			}
 			first := strings.SplitN(strings.TrimSpace(c.stderr), "\n", 2)[0]
 			v := core.Violation{Prop: id, Monitor: "process-death", Sig: kind + "@" + site,
-				What:  "child process died while running the case: " + core.Trunc(first, 200) + " (" + c.exit + ")",
-				Seed:  seed, Index: c.idx, Tier: tier, Detail: core.Trunc(c.stderr, 6000)}
+				What: "child process died while running the case: " + core.Trunc(first, 200) + " (" + c.exit + ")",
+				Seed: seed, Index: c.idx, Tier: tier, Detail: core.Trunc(c.stderr, 6000)}
 			viols = append(viols, v)
 			violCount++
 		}
